@@ -83,6 +83,7 @@ func verifRunTermsFacet(d *verifFacetDocs, size, skip int, sortByField bool, fac
 	fb := search.NewFacetsBuilder(nil)
 	fb.Add("byf", facet.NewTermsFacetBuilder("f", facetSize))
 	fb.Add("byg", facet.NewTermsFacetBuilder("g", 5))
+	fb.Add("byf2", facet.NewTermsFacetBuilder("f", 5)) // a second facet over the first one's field
 	hc.SetFacetsBuilder(fb)
 	verifCollect(hc, d.n, d.score, d.dv)
 	rt.Assert(hc.Total() == uint64(d.n), "Total counts every match")
@@ -110,6 +111,11 @@ func verifRunTermsFacet(d *verifFacetDocs, size, skip int, sortByField bool, fac
 	}
 	res, ok := fr["byf"]
 	rt.Assert(ok, "facet result present")
+	res2, ok2 := fr["byf2"]
+	rt.Assert(ok2, "result of the second facet over the same field present")
+	if ok && ok2 {
+		rt.Assert(rt.And(res2.Total == res.Total, res2.Missing == res.Missing), "two facets over one field both describe all matches")
+	}
 	return res
 }
 
